@@ -193,22 +193,26 @@ def run(ctx: Ctx) -> None:
         def snap(delims):
             return [(d.marker, d.length or 0, d.token, d.end, d.open, d.close) for d in delims]
 
+        cur = [""]
+
         def wrapped(state, delimiters):
             before = snap(delimiters)
             orig_pd(state, delimiters)
             if before and len(before) <= 400:
-                rec.append((before, snap(delimiters)))
+                rec.append((before, snap(delimiters), cur[0]))
         bp.processDelimiters = wrapped
         try:
             mdd = MarkdownIt("js-default")
             DAL = ["*", "**", "***", "_", "__", "~~", "~~~", "a", " ", "b*", "*c", "_d_", "[", "](u)", "**e", "f**", "\n", "`", "<", "x", "*_", "_*",
                    "é*", "*é", "\\*", "a*b", "(*", "*)", "~"]
             for _ in range(1500 if quick else 40000):
+                cur[0] = "".join(rng.choice(DAL) for _ in range(rng.randint(1, 16)))
                 try:
-                    mdd.render("".join(rng.choice(DAL) for _ in range(rng.randint(1, 16))))
+                    check(ctx, mdd, cur[0], gens.FIXED_CFGS[1])      # the oracle on the emphasis-heavy strings too
                 except Exception:
                     pass
             for src in gens.doc_stream(rng, 400 if quick else 8000, 5):
+                cur[0] = src
                 try:
                     mdd.render(src)
                 except Exception:
@@ -218,13 +222,13 @@ def run(ctx: Ctx) -> None:
 
         def encd(ds):
             return ",".join(f"{m}:{ln}:{t}:{e}:{int(o)}:{int(c)}" for m, ln, t, e, o, c in ds) or "~"
-        got = drv.batch(["delims " + encd(b) for b, _ in rec])
+        got = drv.batch(["delims " + encd(b) for b, _, _ in rec])
         npairs = 0
-        for (b, a), g in zip(rec, got):
+        for (b, a, csrc), g in zip(rec, got):
             ctx.corr_compared += 1
             npairs += sum(1 for x in a if x[3] >= 0)
             if encd(a) != g.strip():
-                ctx.mismatch("processDelimiters: implementation and model differ", {"delimiters": encd(b), "impl": encd(a), "model": g[:600]})
+                ctx.mismatch("processDelimiters: implementation and model differ", {"delimiters": encd(b), "impl": encd(a), "model": g[:600], "source": csrc})
                 break
             # the theorem's hypotheses hold of every real call, and its conclusion of every real result
             if any(x[3] >= 0 for x in b) or any(x[2] < 0 for x in b):
@@ -271,6 +275,14 @@ def search(ctx: Ctx):
 
     c = Ctx(ctx.pid, "quick", ctx.seed + 9)
     md = MarkdownIt("js-default")
+    # first the documents on which the correspondence broke: the real call that differs from the model happened while parsing them
+    for m in ctx.mismatches:
+        src = m.get("source")
+        if isinstance(src, str) and src:
+            check(c, md, src, gens.FIXED_CFGS[1])
+            real = [f for f in c.findings if f.kind != "inline-mode-wrapper-not-block"]
+            if real:
+                return real[0]
     for src in gens.delim_sweep(6):
         e = wf(md.parseInline(src)[0].children or [], True)
         if e:
